@@ -46,6 +46,7 @@ fn plan(p: &str) -> Option<Plan> {
         "C04" => d(&[("dag", 5), ("hello", 2), ("sessions", 1)], &["C04"], 6000, 80000, "an action ran on a committed multi-head graph"),
         "C05" => d(&[("finalize", 6), ("adversarial", 2), ("dag", 1)], &["C05"], 6000, 80000, "run exercised both outcomes or a finalize command that is not a tip"),
         "C06" => d(&[("adversarial", 7), ("facts", 2), ("txn-race", 1)], &["C06", "C13"], 8000, 100000, "a command was rejected at origin while its transaction held >= 1 accepted command"),
+        "C07" => d(&[("dag", 5), ("hello", 2), ("facts", 2), ("dag-faults", 1)], &["C07"], 6000, 80000, "an action failed after publishing >= 1 command (or on a multi-head graph) and another action succeeded in the same run"),
         "C08" => d(&[("txn-race", 7), ("adversarial", 1), ("dag", 2)], &["C08"], 6000, 80000, "run has >= 1 ConcurrentTransaction refusal and >= 1 successful commit"),
         "C09" => d(&[("adversarial", 4), ("dag", 4), ("txn-race", 2)], &["C09"], 6000, 80000, "committed head set with >= 2 heads was checked against the frontier"),
         "C10" => d(&[("adversarial", 8), ("dag", 1)], &["C10"], 6000, 80000, "an init-shaped command was refused or a graph was created from a synced init"),
@@ -73,6 +74,7 @@ fn nontrivial(property: &str, o: &Outcome) -> bool {
         "C04" => c("multi_head_actions") > 0,
         "C05" => c("parallel_finalize_on_merge") + c("parallel_finalize_on_commit") > 0,
         "C06" | "C13" => c("rejected_with_accepted_in_trx") > 0 || (property == "C13" && c("c14.actions_failed") + c("c14.receives_failed") > 0),
+        "C07" => c("actions_failed") > 0 && c("actions_ok") > 0,
         "C08" => c("concurrent_transaction") > 0 && c("commits") > 0,
         "C09" => c("multi_head_commits") > 0,
         "C10" => c("init_error") > 0,
